@@ -452,4 +452,782 @@ theorem entries_func_mem (g : Grammar) : ∀ e ∈ g.entries, ∃ p ∈ g, p.1 =
   obtain ⟨p, hp, q, _, r, _, rfl⟩ := he
   exact ⟨p, hp, rfl⟩
 
+/-! ## chain composition (C07.T2) -/
+
+abbrev Var := Int × Nat
+
+/-! ### counters -/
+
+def cget (c : Cnt) (k : Int) : Nat := (AList.get? k c).getD 0
+
+theorem get?_upsert {κ ν} [DecidableEq κ] (k k' : κ) (f : Option ν → ν) (l : AList κ ν) :
+    AList.get? k' (AList.upsert k f l) = if k' = k then some (f (AList.get? k l)) else AList.get? k' l := by
+  induction l with
+  | nil =>
+    by_cases h : k' = k
+    · subst h; simp [AList.get?, AList.upsert]
+    · have : ¬ k = k' := fun e => h e.symm
+      simp [AList.get?, AList.upsert, h, this]
+  | cons a r ih =>
+    obtain ⟨a, v⟩ := a
+    simp only [AList.upsert]
+    by_cases hak : a = k
+    · subst hak
+      by_cases h : k' = a
+      · subst h; simp [AList.get?]
+      · have : ¬ a = k' := fun e => h e.symm
+        simp [AList.get?, h, this]
+    · simp only [hak, if_false]
+      by_cases h : k' = k
+      · subst h
+        have : ¬ a = k' := hak
+        simp only [AList.get?, List.find?_cons, this, decide_false] at ih ⊢
+        simpa using ih
+      · by_cases h2 : a = k'
+        · subst h2; simp [AList.get?, h]
+        · simp only [AList.get?, List.find?_cons, h2, decide_false, h, if_false] at ih ⊢
+          simpa using ih
+
+theorem bump_snd (c : Cnt) (k : Int) : (c.bump k).2 = cget c k := rfl
+
+theorem cget_bump (c : Cnt) (k q : Int) : cget (c.bump k).1 q = if q = k then cget c k + 1 else cget c q := by
+  simp only [Cnt.bump, cget, get?_upsert]
+  split <;> simp
+
+def bumpF (k : Int → Nat) (p : Int) : Int → Nat := fun q => if q = p then k q + 1 else k q
+
+def idxOK : (Int → Nat) → List Var → Prop
+  | _, [] => True
+  | k, v :: vs => v.2 = k v.1 ∧ idxOK (bumpF k v.1) vs
+
+def after (k : Int → Nat) : List Var → (Int → Nat)
+  | [] => k
+  | v :: vs => after (bumpF k v.1) vs
+
+theorem idxOK_append : ∀ (a b : List Var) (k : Int → Nat), idxOK k (a ++ b) ↔ idxOK k a ∧ idxOK (after k a) b
+  | [], b, k => by simp [idxOK, after]
+  | v :: a, b, k => by simp [idxOK, after, idxOK_append a b, and_assoc]
+
+theorem after_append : ∀ (a b : List Var) (k : Int → Nat), after k (a ++ b) = after (after k a) b
+  | [], b, k => rfl
+  | v :: a, b, k => by simp [after, after_append a b]
+
+/-! ### equations of `linsubArg` -/
+
+def headIs (cur : List Var) (d : Int) : Bool := match cur with | (q, _) :: _ => q == d | [] => false
+
+theorem linsubArg_nil (src : Int → Bool) (dest : Int → Dest) (rep : Bool) (cur : List Var) (c : Cnt) :
+    linsubArg src dest rep [] cur c = ((if cur.isEmpty then [] else [cur.reverse]), c) := rfl
+
+theorem linsubArg_nosrc (src : Int → Bool) (dest : Int → Dest) (rep : Bool) (p : Int) (j : Nat) (vs cur : List Var)
+    (c : Cnt) (h : src p = false) :
+    linsubArg src dest rep ((p, j) :: vs) cur c = linsubArg src dest rep vs ((p, cget c p) :: cur) (c.bump p).1 := by
+  simp only [linsubArg, h]; rfl
+
+theorem linsubArg_val (src : Int → Bool) (dest : Int → Dest) (rep : Bool) (p : Int) (j : Nat) (vs cur : List Var)
+    (c : Cnt) (d : Int) (h : src p = true) (hd : dest p = .val d) (hr : (rep && headIs cur d) = false) :
+    linsubArg src dest rep ((p, j) :: vs) cur c = linsubArg src dest rep vs ((d, cget c d) :: cur) (c.bump d).1 := by
+  cases cur with
+  | nil => simp [linsubArg, h, hd]; rfl
+  | cons a t =>
+    obtain ⟨q, i⟩ := a
+    simp only [headIs] at hr
+    simp only [linsubArg, h, hd, if_true, hr]; rfl
+
+theorem linsubArg_skip (src : Int → Bool) (dest : Int → Dest) (rep : Bool) (p : Int) (j : Nat) (vs cur : List Var)
+    (c : Cnt) (d : Int) (h : src p = true) (hd : dest p = .val d) (hr : (rep && headIs cur d) = true) :
+    linsubArg src dest rep ((p, j) :: vs) cur c = linsubArg src dest rep vs cur c := by
+  cases cur with
+  | nil => simp [headIs] at hr
+  | cons a t =>
+    obtain ⟨q, i⟩ := a
+    simp only [headIs] at hr
+    simp only [linsubArg, h, hd, if_true, hr]
+
+theorem linsubArg_split (src : Int → Bool) (dest : Int → Dest) (rep : Bool) (p : Int) (j : Nat) (vs cur : List Var)
+    (c : Cnt) (h : src p = true) (hd : dest p = .split) :
+    linsubArg src dest rep ((p, j) :: vs) cur c =
+      ((if cur.isEmpty then (linsubArg src dest rep vs [] c).1 else cur.reverse :: (linsubArg src dest rep vs [] c).1),
+        (linsubArg src dest rep vs [] c).2) := by
+  simp only [linsubArg, h, hd, if_true]
+
+/-! ### groups of an argument: variables of element 0 and maximal runs of the other elements -/
+
+inductive Grp where
+  | z (v : Var)
+  | run (r : List Var)
+
+def consRun (v : Var) : List Grp → List Grp
+  | .run r :: t => .run (v :: r) :: t
+  | t => .run [v] :: t
+
+def grp : List Var → List Grp
+  | [] => []
+  | v :: vs => if v.1 = 0 then .z v :: grp vs else consRun v (grp vs)
+
+def ungrp : List Grp → List Var
+  | [] => []
+  | .z v :: t => v :: ungrp t
+  | .run r :: t => r ++ ungrp t
+
+def shift (v : Var) : Var := (v.1 - 1, v.2)
+
+def runsOf : List Grp → Lin
+  | [] => []
+  | .z _ :: t => runsOf t
+  | .run r :: t => r.map shift :: runsOf t
+
+def topG : List Grp → Nat → List Var × Nat
+  | [], m => ([], m)
+  | .z v :: gs, m => (v :: (topG gs m).1, (topG gs m).2)
+  | .run _ :: gs, m => ((1, m) :: (topG gs (m + 1)).1, (topG gs (m + 1)).2)
+
+theorem ungrp_consRun (v : Var) (gs : List Grp) : ungrp (consRun v gs) = v :: ungrp gs := by
+  cases gs with
+  | nil => rfl
+  | cons g t => cases g <;> rfl
+
+theorem ungrp_grp : ∀ vs : List Var, ungrp (grp vs) = vs
+  | [] => rfl
+  | v :: vs => by
+    simp only [grp]
+    split
+    · simp [ungrp, ungrp_grp vs]
+    · simp [ungrp_consRun, ungrp_grp vs]
+
+/-- what `linsub`'s splitting pass returns with accumulator `cur` -/
+def piecesWith (cur : List Var) : List Grp → Lin
+  | .run r :: t => (cur.reverse ++ r.map shift) :: runsOf t
+  | t => (if cur.isEmpty then [] else [cur.reverse]) ++ runsOf t
+
+theorem piecesWith_nil (gs : List Grp) : piecesWith [] gs = runsOf gs := by
+  cases gs with
+  | nil => rfl
+  | cons g t => cases g <;> simp [piecesWith, runsOf]
+
+theorem piecesWith_consRun (cur : List Var) (v : Var) (gs : List Grp) :
+    piecesWith cur (consRun v gs) = piecesWith (shift v :: cur) gs := by
+  cases gs with
+  | nil => simp [piecesWith, consRun, runsOf]
+  | cons g t => cases g <;> simp [piecesWith, consRun, runsOf]
+
+/-- first pass of `restLin`: shift all positions down -/
+theorem linsubArg_shift : ∀ (vars cur : List Var) (c : Cnt) (k : Int → Nat),
+    (∀ v ∈ vars, 0 ≤ v.1) → idxOK k vars → (∀ q, cget c (q - 1) = k q) →
+    (linsubArg (fun x => x ≥ 0) (fun x => .val (x - 1)) false vars cur c).1 =
+        (if (cur.reverse ++ vars.map shift).isEmpty then [] else [cur.reverse ++ vars.map shift]) ∧
+      (∀ q, cget (linsubArg (fun x => x ≥ 0) (fun x => .val (x - 1)) false vars cur c).2 (q - 1) = after k vars q)
+  | [], cur, c, k, _, _, hc => by
+    rw [linsubArg_nil]
+    refine ⟨?_, hc⟩
+    simp
+  | (p, j) :: vs, cur, c, k, hp, hi, hc => by
+    have hp0 : 0 ≤ p := hp (p, j) (by simp)
+    rw [linsubArg_val _ _ _ p j vs cur c (p - 1) (by simpa using hp0) rfl (by simp)]
+    obtain ⟨hj, hi'⟩ := hi
+    simp only at hj hi'
+    have hc' : ∀ q, cget (c.bump (p - 1)).1 (q - 1) = bumpF k p q := by
+      intro q
+      rw [cget_bump, bumpF, hc p]
+      by_cases e : q = p
+      · subst e; simp
+      · have : ¬ q - 1 = p - 1 := by omega
+        simp [e, this, hc q]
+    have ih := linsubArg_shift vs ((p - 1, cget c (p - 1)) :: cur) (c.bump (p - 1)).1 (bumpF k p)
+      (fun v hv => hp v (by simp [hv])) hi' hc'
+    refine ⟨?_, ih.2⟩
+    rw [ih.1, hc p, ← hj]
+    simp [shift]
+
+/-- second pass of `restLin`: split where element 0 stood -/
+theorem linsubArg_pieces : ∀ (vars cur : List Var) (c : Cnt) (k : Int → Nat),
+    (∀ v ∈ vars, 0 ≤ v.1) → idxOK k vars → (∀ q, 0 < q → cget c (q - 1) = k q) →
+    (linsubArg (fun x => x == -1) (fun _ => .split) false (vars.map shift) cur c).1 = piecesWith cur (grp vars) ∧
+      (∀ q, 0 < q →
+        cget (linsubArg (fun x => x == -1) (fun _ => .split) false (vars.map shift) cur c).2 (q - 1) = after k vars q)
+  | [], cur, c, k, _, _, hc => by
+    refine ⟨?_, hc⟩
+    simp [linsubArg_nil, grp, piecesWith, runsOf]
+  | (p, j) :: vs, cur, c, k, hp, hi, hc => by
+    have hp0 : 0 ≤ p := hp (p, j) (by simp)
+    obtain ⟨hj, hi'⟩ := hi
+    simp only at hj hi'
+    simp only [List.map_cons, shift]
+    by_cases hz : p = 0
+    · subst hz
+      rw [linsubArg_split _ _ _ _ j _ cur c (by simp) rfl]
+      have hc' : ∀ q, 0 < q → cget c (q - 1) = bumpF k 0 q := by
+        intro q hq
+        have : ¬ q = 0 := by omega
+        simp [bumpF, this, hc q hq]
+      have ih := linsubArg_pieces vs [] c (bumpF k 0) (fun v hv => hp v (by simp [hv])) hi' hc'
+      refine ⟨?_, ih.2⟩
+      rw [ih.1, piecesWith_nil]
+      simp only [grp, if_true, piecesWith, runsOf]
+      split <;> simp
+    · have hsrc : (fun x : Int => x == -1) (p - 1) = false := by
+        have : ¬ p - 1 = -1 := by omega
+        simpa using this
+      rw [linsubArg_nosrc _ _ _ (p - 1) j _ cur c hsrc]
+      have hc' : ∀ q, 0 < q → cget (c.bump (p - 1)).1 (q - 1) = bumpF k p q := by
+        intro q hq
+        rw [cget_bump, bumpF, hc p (by omega)]
+        by_cases e : q = p
+        · subst e; simp
+        · have : ¬ q - 1 = p - 1 := by omega
+          simp [e, this, hc q hq]
+      have ih := linsubArg_pieces vs ((p - 1, cget c (p - 1)) :: cur) (c.bump (p - 1)).1 (bumpF k p)
+        (fun v hv => hp v (by simp [hv])) hi' hc'
+      refine ⟨?_, ih.2⟩
+      rw [ih.1, hc p (by omega), ← hj]
+      simp only [grp, hz, if_false, piecesWith_consRun, shift]
+
+/-- `topG` when the accumulator of `linsub` already ends with the marker of an open run -/
+def topW (b : Bool) (gs : List Grp) (m : Nat) : List Var × Nat :=
+  match b, gs with
+  | true, .run _ :: t => topG t m
+  | _, gs => topG gs m
+
+theorem topW_false (gs : List Grp) (m : Nat) : topW false gs m = topG gs m := by
+  cases gs with
+  | nil => rfl
+  | cons g t => cases g <;> rfl
+
+theorem topW_z (b : Bool) (v : Var) (gs : List Grp) (m : Nat) :
+    topW b (.z v :: gs) m = (v :: (topG gs m).1, (topG gs m).2) := by
+  cases b <;> rfl
+
+theorem topW_consRun_true (v : Var) (gs : List Grp) (m : Nat) : topW true (consRun v gs) m = topW true gs m := by
+  cases gs with
+  | nil => rfl
+  | cons g t => cases g <;> rfl
+
+theorem topW_consRun_false (v : Var) (gs : List Grp) (m : Nat) :
+    topW false (consRun v gs) m = ((1, m) :: (topW true gs (m + 1)).1, (topW true gs (m + 1)).2) := by
+  cases gs with
+  | nil => rfl
+  | cons g t => cases g <;> rfl
+
+/-- `topLin` on one argument -/
+theorem linsubArg_top : ∀ (vars cur : List Var) (c : Cnt) (k : Int → Nat) (m : Nat),
+    (∀ v ∈ vars, 0 ≤ v.1) → idxOK k vars → cget c 0 = k 0 → cget c 1 = m →
+    (linsubArg (fun x => x > 0) (fun _ => .val 1) true vars cur c).1 =
+        (if (cur.reverse ++ (topW (headIs cur 1) (grp vars) m).1).isEmpty then []
+         else [cur.reverse ++ (topW (headIs cur 1) (grp vars) m).1]) ∧
+      cget (linsubArg (fun x => x > 0) (fun _ => .val 1) true vars cur c).2 0 = after k vars 0 ∧
+      cget (linsubArg (fun x => x > 0) (fun _ => .val 1) true vars cur c).2 1 = (topW (headIs cur 1) (grp vars) m).2
+  | [], cur, c, k, m, _, _, h0, h1 => by
+    rw [linsubArg_nil]
+    refine ⟨?_, h0, ?_⟩
+    · cases hb : headIs cur 1 <;> simp [grp, topW, topG]
+    · cases hb : headIs cur 1 <;> simp [grp, topW, topG, h1]
+  | (p, j) :: vs, cur, c, k, m, hp, hi, h0, h1 => by
+    have hp0 : 0 ≤ p := hp (p, j) (by simp)
+    obtain ⟨hj, hi'⟩ := hi
+    simp only at hj hi'
+    by_cases hz : p = 0
+    · subst hz
+      rw [linsubArg_nosrc _ _ _ 0 j _ cur c (by simp)]
+      have ih := linsubArg_top vs ((0, cget c 0) :: cur) (c.bump 0).1 (bumpF k 0) m
+        (fun v hv => hp v (by simp [hv])) hi' (by simp [cget_bump, bumpF, h0]) (by simp [cget_bump, h1])
+      have hh : headIs ((0, cget c 0) :: cur) 1 = false := by simp [headIs]
+      rw [hh, topW_false] at ih
+      refine ⟨?_, ih.2.1, ?_⟩
+      · rw [ih.1, h0, ← hj]
+        simp [grp, topW_z]
+      · rw [ih.2.2]
+        simp [grp, topW_z]
+    · have hsrc : (fun x : Int => decide (x > 0)) p = true := by
+        have : p > 0 := by omega
+        simpa using this
+      have hg : grp ((p, j) :: vs) = consRun (p, j) (grp vs) := by simp [grp, hz]
+      have hk0 : cget c 0 = bumpF k p 0 := by
+        have : ¬ (0 : Int) = p := fun e => hz e.symm
+        simp [bumpF, this, h0]
+      rw [hg]
+      cases hb : headIs cur 1
+      · rw [linsubArg_val _ _ _ p j vs cur c 1 hsrc rfl (by simp [hb])]
+        have ih := linsubArg_top vs ((1, cget c 1) :: cur) (c.bump 1).1 (bumpF k p) (m + 1)
+          (fun v hv => hp v (by simp [hv])) hi' (by simpa [cget_bump] using hk0) (by simp [cget_bump, h1])
+        have hh : headIs ((1, cget c 1) :: cur) 1 = true := by simp [headIs]
+        rw [hh] at ih
+        refine ⟨?_, ih.2.1, ?_⟩
+        · rw [ih.1, h1, topW_consRun_false]
+          simp
+        · rw [ih.2.2, topW_consRun_false]
+      · rw [linsubArg_skip _ _ _ p j vs cur c 1 hsrc rfl (by simp [hb])]
+        have ih := linsubArg_top vs cur c (bumpF k p) m
+          (fun v hv => hp v (by simp [hv])) hi' hk0 h1
+        rw [hb] at ih
+        rw [topW_consRun_true]
+        exact ih
+
+/-! ### whole linearizations -/
+
+theorem linsubArgs_cons (src : Int → Bool) (dest : Int → Dest) (rep : Bool) (a : List Var) (as : Lin) (c : Cnt) :
+    linsubArgs src dest rep (a :: as) c =
+      (linsubArg src dest rep a [] c).1 ++ linsubArgs src dest rep as (linsubArg src dest rep a [] c).2 := rfl
+
+def topGs : List (List Grp) → Nat → Lin
+  | [], _ => []
+  | gs :: gss, m => (topG gs m).1 :: topGs gss (topG gs m).2
+
+theorem linsubArgs_shift : ∀ (lin : Lin) (c : Cnt) (k : Int → Nat),
+    (∀ a ∈ lin, a ≠ []) → (∀ a ∈ lin, ∀ v ∈ a, 0 ≤ v.1) → idxOK k lin.flatten → (∀ q, cget c (q - 1) = k q) →
+    linsubArgs (fun x => x ≥ 0) (fun x => .val (x - 1)) false lin c = lin.map (·.map shift)
+  | [], _, _, _, _, _, _ => rfl
+  | a :: as, c, k, hne, hp, hi, hc => by
+    rw [List.flatten_cons, idxOK_append] at hi
+    have h1 := linsubArg_shift a [] c k (hp a (by simp)) hi.1 hc
+    rw [linsubArgs_cons, h1.1,
+      linsubArgs_shift as _ (after k a) (fun b hb => hne b (by simp [hb])) (fun b hb => hp b (by simp [hb])) hi.2 h1.2]
+    have : a ≠ [] := hne a (by simp)
+    simp [this]
+
+theorem linsubArgs_pieces : ∀ (lin : Lin) (c : Cnt) (k : Int → Nat),
+    (∀ a ∈ lin, ∀ v ∈ a, 0 ≤ v.1) → idxOK k lin.flatten → (∀ q, 0 < q → cget c (q - 1) = k q) →
+    linsubArgs (fun x => x == -1) (fun _ => .split) false (lin.map (·.map shift)) c = (lin.map grp).flatMap runsOf
+  | [], _, _, _, _, _ => rfl
+  | a :: as, c, k, hp, hi, hc => by
+    rw [List.flatten_cons, idxOK_append] at hi
+    have h1 := linsubArg_pieces a [] c k (hp a (by simp)) hi.1 hc
+    rw [List.map_cons, linsubArgs_cons, h1.1,
+      linsubArgs_pieces as _ (after k a) (fun b hb => hp b (by simp [hb])) hi.2 h1.2, piecesWith_nil]
+    simp
+
+theorem topG_ne_nil (gs : List Grp) (m : Nat) (h : gs ≠ []) : (topG gs m).1 ≠ [] := by
+  cases gs with
+  | nil => exact absurd rfl h
+  | cons g t => cases g <;> simp [topG]
+
+theorem grp_ne_nil (vs : List Var) (h : vs ≠ []) : grp vs ≠ [] := by
+  intro e
+  have := ungrp_grp vs
+  rw [e] at this
+  exact h this.symm
+
+theorem linsubArgs_top : ∀ (lin : Lin) (c : Cnt) (k : Int → Nat) (m : Nat),
+    (∀ a ∈ lin, a ≠ []) → (∀ a ∈ lin, ∀ v ∈ a, 0 ≤ v.1) → idxOK k lin.flatten → cget c 0 = k 0 → cget c 1 = m →
+    linsubArgs (fun x => x > 0) (fun _ => .val 1) true lin c = topGs (lin.map grp) m
+  | [], _, _, _, _, _, _, _, _ => rfl
+  | a :: as, c, k, m, hne, hp, hi, h0, h1 => by
+    rw [List.flatten_cons, idxOK_append] at hi
+    have h := linsubArg_top a [] c k m (hp a (by simp)) hi.1 h0 h1
+    have hh : headIs [] 1 = false := rfl
+    rw [hh, topW_false] at h
+    rw [linsubArgs_cons, h.1,
+      linsubArgs_top as _ (after k a) _ (fun b hb => hne b (by simp [hb])) (fun b hb => hp b (by simp [hb])) hi.2
+        h.2.1 h.2.2]
+    have : (topG (grp a) m).1 ≠ [] := topG_ne_nil _ _ (grp_ne_nil a (hne a (by simp)))
+    simp [this, topGs]
+
+/-- the three facts about a linearization used below -/
+structure WF' (lin : Lin) : Prop where
+  ne : ∀ a ∈ lin, a ≠ []
+  pos : ∀ a ∈ lin, ∀ v ∈ a, 0 ≤ v.1
+  idx : idxOK (fun _ => 0) lin.flatten
+
+theorem cget_nil (q : Int) : cget [] q = 0 := rfl
+
+theorem restLin_eq (lin : Lin) (h : WF' lin) : restLin lin = (lin.map grp).flatMap runsOf := by
+  unfold restLin linsub
+  rw [linsubArgs_shift lin [] _ h.ne h.pos h.idx (fun _ => rfl),
+    linsubArgs_pieces lin [] _ h.pos h.idx (fun _ _ => rfl)]
+
+theorem topLin_eq (lin : Lin) (h : WF' lin) : topLin lin = topGs (lin.map grp) 0 := by
+  unfold topLin linsub
+  rw [linsubArgs_top lin [] _ 0 h.ne h.pos h.idx rfl rfl]
+
+/-! ### evaluation -/
+
+def omap {α β} (f : α → Option β) : List α → Option (List β)
+  | [] => some []
+  | a :: as => match f a, omap f as with
+    | some b, some bs => some (b :: bs)
+    | _, _ => none
+
+theorem mapM_eq_omap {α β} (f : α → Option β) : ∀ l : List α, l.mapM f = omap f l
+  | [] => by simp [omap]
+  | a :: as => by
+    rw [List.mapM_cons, mapM_eq_omap f as]
+    cases h1 : f a <;> cases h2 : omap f as <;> simp [omap, h1, h2]
+
+theorem omap_append {α β} (f : α → Option β) : ∀ a b : List α,
+    omap f (a ++ b) = match omap f a, omap f b with
+      | some x, some y => some (x ++ y)
+      | _, _ => none
+  | [], b => by cases h : omap f b <;> simp [omap, h]
+  | x :: a, b => by
+    simp only [List.cons_append, omap, omap_append f a b]
+    cases f x <;> cases omap f a <;> cases omap f b <;> simp
+
+theorem omap_congr {α β} (f g : α → Option β) : ∀ l : List α, (∀ a ∈ l, f a = g a) → omap f l = omap g l
+  | [], _ => rfl
+  | a :: as, h => by
+    simp only [omap, h a (by simp), omap_congr f g as (fun b hb => h b (by simp [hb]))]
+
+theorem omap_map {α β γ} (f : β → Option γ) (g : α → β) : ∀ l : List α, omap f (l.map g) = omap (fun a => f (g a)) l
+  | [] => rfl
+  | a :: as => by simp only [List.map_cons, omap, omap_map f g as]
+
+def look {α} (args : List (List (List α))) (p : Var) : Option (List α) := (args[p.1.toNat]?).bind (·[p.2]?)
+
+def evalArg {α} (L : Var → Option (List α)) (vs : List Var) : Option (List α) := (omap L vs).map List.flatten
+
+theorem instLin_eq {α} (lin : Lin) (args : List (List (List α))) : instLin lin args = omap (evalArg (look args)) lin := by
+  unfold instLin
+  rw [mapM_eq_omap]
+  apply omap_congr
+  intro a _
+  rw [mapM_eq_omap]
+  rfl
+
+theorem evalArg_nil {α} (L : Var → Option (List α)) : evalArg L [] = some [] := rfl
+
+theorem evalArg_cons {α} (L : Var → Option (List α)) (v : Var) (vs : List Var) :
+    evalArg L (v :: vs) = match L v, evalArg L vs with
+      | some b, some bs => some (b ++ bs)
+      | _, _ => none := by
+  simp only [evalArg, omap]
+  cases L v <;> cases omap L vs <;> simp
+
+theorem evalArg_append {α} (L : Var → Option (List α)) (a b : List Var) :
+    evalArg L (a ++ b) = match evalArg L a, evalArg L b with
+      | some x, some y => some (x ++ y)
+      | _, _ => none := by
+  simp only [evalArg, omap_append]
+  cases omap L a <;> cases omap L b <;> simp
+
+theorem evalArg_congr {α} (L L' : Var → Option (List α)) (vs : List Var) (h : ∀ v ∈ vs, L v = L' v) :
+    evalArg L vs = evalArg L' vs := by
+  simp only [evalArg, omap_congr L L' vs h]
+
+theorem look_zero {α} (e0 : List (List α)) (X : List (List (List α))) (v : Var) (h : v.1 = 0) :
+    look (e0 :: X) v = e0[v.2]? := by
+  simp [look, h]
+
+theorem look_shift {α} (e0 : List (List α)) (rest : List (List (List α))) (v : Var) (h : 0 < v.1) :
+    look rest (shift v) = look (e0 :: rest) v := by
+  have : v.1.toNat = (v.1 - 1).toNat + 1 := by omega
+  unfold look shift
+  rw [this, List.getElem?_cons_succ]
+
+theorem look_one {α} (e0 : List (List α)) (r : List (List α)) (m : Nat) : look [e0, r] (1, m) = r[m]? := by
+  simp [look]
+
+/-- groups are well-formed: element-0 variables, and non-empty runs of other elements -/
+def GOK : List Grp → Prop
+  | [] => True
+  | .z v :: t => v.1 = 0 ∧ GOK t
+  | .run r :: t => (r ≠ [] ∧ ∀ v ∈ r, v.1 ≠ 0) ∧ GOK t
+
+theorem GOK_consRun (v : Var) (gs : List Grp) (hv : v.1 ≠ 0) (h : GOK gs) : GOK (consRun v gs) := by
+  cases gs with
+  | nil => simp [consRun, GOK, hv]
+  | cons g t =>
+    cases g with
+    | z w => simp only [consRun, GOK] at h ⊢; simp [hv, h]
+    | run r => simp only [consRun, GOK] at h ⊢; exact ⟨by simpa [hv] using h.1.2, h.2⟩
+
+theorem GOK_grp : ∀ vs : List Var, GOK (grp vs)
+  | [] => trivial
+  | v :: vs => by
+    simp only [grp]
+    split
+    · rename_i h; exact ⟨h, GOK_grp vs⟩
+    · rename_i h; exact GOK_consRun v _ h (GOK_grp vs)
+
+theorem sem_arg {α} (e0 : List (List α)) (rest : List (List (List α))) : ∀ (gs : List Grp), GOK gs →
+    (∀ v ∈ ungrp gs, 0 ≤ v.1) → ∀ (rpre rpost : List (List α)),
+    (omap (evalArg (look rest)) (runsOf gs) = none → evalArg (look (e0 :: rest)) (ungrp gs) = none) ∧
+    (∀ rh, omap (evalArg (look rest)) (runsOf gs) = some rh →
+      evalArg (look [e0, rpre ++ rh ++ rpost]) (topG gs rpre.length).1 = evalArg (look (e0 :: rest)) (ungrp gs) ∧
+      (topG gs rpre.length).2 = rpre.length + rh.length)
+  | [], _, _, rpre, rpost => by
+    simp [runsOf, omap, topG, ungrp, evalArg_nil]
+  | .z v :: gs, hok, hpos, rpre, rpost => by
+    have ih := sem_arg e0 rest gs hok.2 (fun w hw => hpos w (by simp [ungrp, hw])) rpre rpost
+    simp only [runsOf, ungrp, topG, evalArg_cons]
+    refine ⟨fun hn => ?_, fun rh hs => ?_⟩
+    · rw [ih.1 hn]; cases look (e0 :: rest) v <;> rfl
+    · obtain ⟨h1, h2⟩ := ih.2 rh hs
+      rw [h1, look_zero e0 _ v hok.1, look_zero e0 _ v hok.1]
+      exact ⟨rfl, h2⟩
+  | .run r :: gs, hok, hpos, rpre, rpost => by
+    have hr : evalArg (look rest) (r.map shift) = evalArg (look (e0 :: rest)) r := by
+      simp only [evalArg, omap_map]
+      rw [omap_congr _ (look (e0 :: rest)) r]
+      intro v hv
+      have h0 : 0 ≤ v.1 := hpos v (by simp [ungrp, hv])
+      have h1 : v.1 ≠ 0 := hok.1.2 v hv
+      exact look_shift e0 rest v (by omega)
+    simp only [runsOf, ungrp, topG, evalArg_append, omap, hr]
+    cases hb : evalArg (look (e0 :: rest)) r with
+    | none => simp
+    | some b =>
+      cases hs : omap (evalArg (look rest)) (runsOf gs) with
+      | none =>
+        have ih := sem_arg e0 rest gs hok.2 (fun w hw => hpos w (by simp [ungrp, hw])) rpre rpost
+        simp [ih.1 hs]
+      | some rh' =>
+        have ih := sem_arg e0 rest gs hok.2 (fun w hw => hpos w (by simp [ungrp, hw])) (rpre ++ [b]) rpost
+        obtain ⟨h1, h2⟩ := ih.2 rh' hs
+        simp only [List.length_append, List.length_cons, List.length_nil, Nat.zero_add] at h1 h2
+        simp only [reduceCtorEq, false_implies, Option.some.injEq, true_and]
+        intro rh e
+        subst e
+        rw [evalArg_cons, look_one]
+        have e1 : rpre ++ b :: rh' ++ rpost = rpre ++ [b] ++ rh' ++ rpost := by simp
+        rw [e1, h1, h2]
+        have e2 : (rpre ++ [b] ++ rh' ++ rpost)[rpre.length]? = some b := by simp
+        rw [e2]
+        refine ⟨rfl, ?_⟩
+        simp only [List.length_cons]; omega
+
+theorem sem_lin {α} (e0 : List (List α)) (rest : List (List (List α))) : ∀ (gss : List (List Grp)),
+    (∀ gs ∈ gss, GOK gs) → (∀ gs ∈ gss, ∀ v ∈ ungrp gs, 0 ≤ v.1) → ∀ (rpre : List (List α)),
+    (omap (evalArg (look rest)) (gss.flatMap runsOf)).bind
+        (fun rs => omap (evalArg (look [e0, rpre ++ rs])) (topGs gss rpre.length)) =
+      omap (fun gs => evalArg (look (e0 :: rest)) (ungrp gs)) gss
+  | [], _, _, rpre => by simp [omap, topGs]
+  | gs :: gss, hok, hpos, rpre => by
+    rw [List.flatMap_cons, omap_append]
+    simp only [omap, topGs]
+    cases h1 : omap (evalArg (look rest)) (runsOf gs) with
+    | none =>
+      have := (sem_arg e0 rest gs (hok gs (by simp)) (hpos gs (by simp)) rpre []).1 h1
+      simp [this]
+    | some rh =>
+      have ih := sem_lin e0 rest gss (fun g hg => hok g (by simp [hg])) (fun g hg => hpos g (by simp [hg])) (rpre ++ rh)
+      cases h2 : omap (evalArg (look rest)) (gss.flatMap runsOf) with
+      | none =>
+        rw [h2] at ih
+        simp only [Option.bind_none] at ih ⊢
+        rw [← ih]
+        cases evalArg (look (e0 :: rest)) (ungrp gs) <;> rfl
+      | some rs =>
+        rw [h2] at ih
+        simp only [Option.bind_some] at ih ⊢
+        obtain ⟨e1, e2⟩ := (sem_arg e0 rest gs (hok gs (by simp)) (hpos gs (by simp)) rpre rs).2 rh h1
+        rw [List.append_assoc] at e1
+        rw [e1, e2, ← ih, List.length_append, List.append_assoc]
+
+/-- the step lemma in terms of the internal well-formedness facts -/
+theorem chain_step' {α} (lin : Lin) (h : WF' lin) (e0 : List (List α)) (rest : List (List (List α))) :
+    (instLin (restLin lin) rest).bind (fun r => instLin (topLin lin) [e0, r]) = instLin lin (e0 :: rest) := by
+  rw [restLin_eq lin h, topLin_eq lin h]
+  simp only [instLin_eq]
+  have := sem_lin e0 rest (lin.map grp) (by simp [GOK_grp])
+    (by simpa [ungrp_grp] using h.pos) []
+  simp only [List.nil_append, List.length_nil] at this
+  rw [this, omap_map]
+  simp only [ungrp_grp]
+
+/-! ### from `wfLin` to the internal facts -/
+
+theorem wfLin_parts (lin : Lin) (fo : List Nat) (h : wfLin lin fo = true) :
+    (∀ v ∈ lin.flatten, 0 ≤ v.1 ∧ v.1.toNat < fo.length) ∧
+    (∀ i, i < fo.length →
+      ((lin.flatten.filter fun v => v.1 == (i : Int)).map (·.2)) = List.range (fo[i]?.getD 0)) ∧
+    (∀ a ∈ lin, a ≠ []) := by
+  unfold wfLin at h
+  simp only [Bool.and_eq_true, List.all_eq_true, decide_eq_true_eq, List.mem_range, beq_iff_eq] at h
+  obtain ⟨⟨h1, h2⟩, h3⟩ := h
+  refine ⟨?_, ?_, ?_⟩
+  · intro v hv; exact h1 v hv
+  · intro i hi; exact h2 i hi
+  · intro a ha e
+    have := (h3 a ha).1
+    simp [e] at this
+
+theorem idxOK_of_ranges (n : Nat) : ∀ (vars : List Var) (k : Int → Nat),
+    (∀ v ∈ vars, 0 ≤ v.1 ∧ v.1.toNat < n) →
+    (∀ i, i < n → ∃ len, ((vars.filter fun v => v.1 == (i : Int)).map (·.2)) = List.range' (k i) len) →
+    idxOK k vars
+  | [], _, _, _ => trivial
+  | (p, j) :: vs, k, h1, h2 => by
+    obtain ⟨hp0, hpn⟩ := h1 (p, j) (by simp)
+    simp only at hp0 hpn
+    have hp : ((p.toNat : Nat) : Int) = p := Int.toNat_of_nonneg hp0
+    obtain ⟨len, hlen⟩ := h2 p.toNat hpn
+    rw [hp] at hlen
+    simp only [List.filter_cons, beq_self_eq_true, if_true, List.map_cons] at hlen
+    cases len with
+    | zero => simp at hlen
+    | succ len' =>
+      rw [List.range'_succ] at hlen
+      obtain ⟨e1, e2⟩ := List.cons.inj hlen
+      refine ⟨e1, ?_⟩
+      apply idxOK_of_ranges n vs _ (fun v hv => h1 v (by simp [hv]))
+      intro i hi
+      by_cases e : (i : Int) = p
+      · refine ⟨len', ?_⟩
+        rw [e, e2]; simp [bumpF]
+      · obtain ⟨l, hl⟩ := h2 i hi
+        have : (p == (i : Int)) = false := by simpa using fun e' => e e'.symm
+        simp only [List.filter_cons, this] at hl
+        refine ⟨l, ?_⟩
+        simpa [bumpF, e] using hl
+
+theorem WF'_of_wfLin (lin : Lin) (fo : List Nat) (h : wfLin lin fo = true) : WF' lin := by
+  obtain ⟨h1, h2, h3⟩ := wfLin_parts lin fo h
+  refine ⟨h3, ?_, ?_⟩
+  · intro a ha v hv
+    exact (h1 v (List.mem_flatten.2 ⟨a, ha, hv⟩)).1
+  · apply idxOK_of_ranges fo.length _ _ h1
+    intro i hi
+    exact ⟨_, by rw [h2 i hi, List.range_eq_range']⟩
+
+theorem wfLin_bound (lin : Lin) (fo : List Nat) (h : wfLin lin fo = true) :
+    ∀ v ∈ lin.flatten, 0 ≤ v.1 ∧ v.1.toNat < fo.length ∧ v.2 < fo[v.1.toNat]?.getD 0 := by
+  obtain ⟨h1, h2, _⟩ := wfLin_parts lin fo h
+  intro v hv
+  obtain ⟨a, b⟩ := h1 v hv
+  refine ⟨a, b, ?_⟩
+  have := h2 v.1.toNat b
+  have hm : v.2 ∈ ((lin.flatten.filter fun w => w.1 == ((v.1.toNat : Nat) : Int)).map (·.2)) := by
+    apply List.mem_map.2
+    refine ⟨v, ?_, rfl⟩
+    rw [List.mem_filter]
+    exact ⟨hv, by simp [Int.toNat_of_nonneg a]⟩
+  rw [this] at hm
+  exact List.mem_range.1 hm
+
+/-! ### `restLin` keeps the internal facts -/
+
+theorem runsOf_flatten : ∀ gs : List Grp, GOK gs →
+    (runsOf gs).flatten = ((ungrp gs).filter fun v => v.1 != 0).map shift
+  | [], _ => rfl
+  | .z v :: t, h => by
+    have : (v.1 != 0) = false := by simp [h.1]
+    simp [runsOf, ungrp, this, runsOf_flatten t h.2]
+  | .run r :: t, h => by
+    have : r.filter (fun v => v.1 != 0) = r := by
+      rw [List.filter_eq_self]
+      intro v hv
+      simpa using h.1.2 v hv
+    simp [runsOf, ungrp, List.filter_append, this, runsOf_flatten t h.2]
+
+theorem runsOf_mem : ∀ gs : List Grp, GOK gs → ∀ a ∈ runsOf gs, a ≠ [] ∧ ∀ v ∈ a, ∃ w ∈ ungrp gs, w.1 ≠ 0 ∧ v = shift w
+  | [], _, a, ha => by simp [runsOf] at ha
+  | .z v :: t, h, a, ha => by
+    obtain ⟨h1, h2⟩ := runsOf_mem t h.2 a ha
+    refine ⟨h1, fun x hx => ?_⟩
+    obtain ⟨w, hw, e⟩ := h2 x hx
+    exact ⟨w, by simp [ungrp, hw], e⟩
+  | .run r :: t, h, a, ha => by
+    simp only [runsOf, List.mem_cons] at ha
+    rcases ha with rfl | ha
+    · refine ⟨by simpa using h.1.1, fun x hx => ?_⟩
+      obtain ⟨w, hw, rfl⟩ := List.mem_map.1 hx
+      exact ⟨w, by simp [ungrp, hw], h.1.2 w hw, rfl⟩
+    · obtain ⟨h1, h2⟩ := runsOf_mem t h.2 a ha
+      refine ⟨h1, fun x hx => ?_⟩
+      obtain ⟨w, hw, e⟩ := h2 x hx
+      exact ⟨w, by simp [ungrp, hw], e⟩
+
+theorem idxOK_rest : ∀ (vars : List Var) (k k' : Int → Nat), (∀ q, 0 ≤ q → k' q = k (q + 1)) →
+    (∀ v ∈ vars, 0 ≤ v.1) → idxOK k vars → idxOK k' ((vars.filter fun v => v.1 != 0).map shift)
+  | [], _, _, _, _, _ => trivial
+  | (p, j) :: vs, k, k', hk, hp, hi => by
+    have hp0 : 0 ≤ p := hp (p, j) (by simp)
+    obtain ⟨hj, hi'⟩ := hi
+    simp only at hj hi'
+    by_cases hz : p = 0
+    · subst hz
+      have : (((0 : Int), j).1 != 0) = false := by simp
+      rw [List.filter_cons_of_neg (by simp)]
+      apply idxOK_rest vs (bumpF k 0) k' _ (fun v hv => hp v (by simp [hv])) hi'
+      intro q hq
+      have : ¬ q + 1 = 0 := by omega
+      simp [bumpF, this, hk q hq]
+    · rw [List.filter_cons_of_pos (by simpa using hz)]
+      simp only [List.map_cons, shift, idxOK]
+      refine ⟨by rw [hj, hk (p - 1) (by omega)]; congr 1; omega, ?_⟩
+      apply idxOK_rest vs (bumpF k p) _ _ (fun v hv => hp v (by simp [hv])) hi'
+      intro q hq
+      simp only [bumpF, hk q hq]
+      by_cases e : q = p - 1
+      · simp [e]
+      · have : ¬ q + 1 = p := by omega
+        simp [e, this]
+
+theorem flatMap_runsOf_flatten : ∀ lin : Lin,
+    ((lin.map grp).flatMap runsOf).flatten = (lin.flatten.filter fun v => v.1 != 0).map shift
+  | [] => rfl
+  | a :: as => by
+    rw [List.map_cons, List.flatMap_cons, List.flatten_append, runsOf_flatten _ (GOK_grp a), ungrp_grp,
+      flatMap_runsOf_flatten as, List.flatten_cons, List.filter_append, List.map_append]
+
+theorem WF'_restLin (lin : Lin) (h : WF' lin) : WF' (restLin lin) := by
+  rw [restLin_eq lin h]
+  have hmem : ∀ a ∈ (lin.map grp).flatMap runsOf, a ≠ [] ∧ ∀ v ∈ a, 0 ≤ v.1 := by
+    intro a ha
+    obtain ⟨gs, hgs, hag⟩ := List.mem_flatMap.1 ha
+    obtain ⟨b, hb, rfl⟩ := List.mem_map.1 hgs
+    obtain ⟨h1, h2⟩ := runsOf_mem (grp b) (GOK_grp b) a hag
+    refine ⟨h1, fun v hv => ?_⟩
+    obtain ⟨w, hw, hw0, rfl⟩ := h2 v hv
+    rw [ungrp_grp] at hw
+    have := h.pos b hb w hw
+    simp only [shift]; omega
+  refine ⟨fun a ha => (hmem a ha).1, fun a ha => (hmem a ha).2, ?_⟩
+  rw [flatMap_runsOf_flatten]
+  apply idxOK_rest lin.flatten (fun _ => 0) _ (fun _ _ => rfl) _ h.idx
+  intro v hv
+  obtain ⟨a, ha, hva⟩ := List.mem_flatten.1 hv
+  exact h.pos a ha v hva
+
+/-! ### the chain -/
+
+theorem chainLins_succ (lin : Lin) (n : Nat) : chainLins lin (n + 1) = topLin lin :: chainLins (restLin lin) n := rfl
+
+theorem chainLins_ne_nil (lin : Lin) (n : Nat) : chainLins lin n ≠ [] := by
+  cases n <;> simp [chainLins]
+
+theorem evalChain_cons (l : Lin) (ls : List Lin) (hls : ls ≠ []) (e : List (List Atom)) (elems : List (List (List Atom))) :
+    evalChain (l :: ls) (e :: elems) = (evalChain ls elems).bind fun r => instLin l [e, r] := by
+  cases ls with
+  | nil => exact absurd rfl hls
+  | cons l' ls' =>
+    simp only [evalChain]
+    cases evalChain (l' :: ls') elems <;> rfl
+
+theorem evalChain_chainLins : ∀ (n : Nat) (lin : Lin) (elems : List (List (List Atom))), WF' lin → n ≤ elems.length →
+    evalChain (chainLins lin n) elems = instLin lin elems
+  | 0, lin, elems, _, _ => by simp [chainLins, evalChain]
+  | n + 1, lin, [], _, hl => by simp at hl
+  | n + 1, lin, e0 :: elems, h, hl => by
+    rw [chainLins_succ, evalChain_cons _ _ (chainLins_ne_nil _ _),
+      evalChain_chainLins n (restLin lin) elems (WF'_restLin lin h) (by simpa using hl), chain_step' lin h]
+
+theorem omap_some_map {α β} (f : α → Option β) (g : α → β) : ∀ l : List α, (∀ a ∈ l, f a = some (g a)) →
+    omap f l = some (l.map g)
+  | [], _ => rfl
+  | a :: as, h => by
+    simp [omap, h a (by simp), omap_some_map f g as (fun b hb => h b (by simp [hb]))]
+
+theorem flatten_singletons {α β} (g : α → β) : ∀ l : List α, (l.map fun a => [g a]).flatten = l.map g
+  | [] => rfl
+  | a :: as => by simp [flatten_singletons g as]
+
+theorem instLin_formal (lin : Lin) (fo : List Nat) (h : wfLin lin fo = true) :
+    instLin lin ((List.range fo.length).map fun i => formalBlocks i (fo[i]?.getD 0)) = some (linAtoms lin) := by
+  have hb := wfLin_bound lin fo h
+  rw [instLin_eq]
+  unfold linAtoms
+  apply omap_some_map
+  intro a ha
+  have hl : ∀ v ∈ a, look ((List.range fo.length).map fun i => formalBlocks i (fo[i]?.getD 0)) v =
+      some [(v.1.toNat, v.2)] := by
+    intro v hv
+    obtain ⟨_, h2, h3⟩ := hb v (List.mem_flatten.2 ⟨a, ha, hv⟩)
+    have h3' : v.2 < fo[v.1.toNat] := by
+      rw [List.getElem?_eq_getElem h2] at h3; simpa using h3
+    simp [look, formalBlocks, h2, List.getElem?_range h3']
+  unfold evalArg
+  rw [omap_some_map _ _ a hl]
+  simp only [Option.map_some, Option.some.injEq]
+  exact flatten_singletons _ a
+
 end TT.Lemmas.GramBin
